@@ -66,8 +66,13 @@ class _Scheme:
     def __init__(self, eng):
         self.eng = eng
         self.memo = {}
+        self.asked = []
+
+    def has_residue(self, resname):
+        return resname in ("ALA", "GLY", "SER", "LYS", "WAT", "NALA", "CALA", "NGLY", "CGLY")
 
     def get_names(self, resname, atomname):
+        self.asked.append((resname, atomname))
         if resname not in self.memo:
             self.memo[resname] = self.eng.choice(f"scheme{len(self.memo)}", 3)
         k = self.memo[resname]
@@ -77,13 +82,25 @@ class _Scheme:
 
 
 def h_name_scheme(eng, seq):
-    bm, _ = fixtures.prepared(fixtures.peptide_lines(seq) + fixtures.residue_lines("WAT", "A", 9, serial0=80, offset=(0.0, 9.0, 0.0), record="HETATM"))
+    # ... plus a hetero group the scheme does not know, right after the last amino acid, whose atom names also occur in amino acids
+    het = [fixtures.atom_line(90 + k, n, "ACT", "A", 8, 2.0 + 1.2 * k, 7.0, 1.0, record="HETATM") for k, n in enumerate(["C", "CB", "OXT", "O"])]
+    bm, _ = fixtures.prepared(fixtures.peptide_lines(seq, ter=False) + het + fixtures.residue_lines("WAT", "A", 9, serial0=80, offset=(0.0, 9.0, 0.0), record="HETATM"))
+    own = []
+    for r in bm.residues:
+        key = r.ffname if hasattr(r, "ffname") and r.name != "ACT" and getattr(r, "ffname", None) else r.name
+        for a in r.atoms:
+            own.append((str(key), a.name, r.name))
     before = []
     for i, a in enumerate(bm.atoms):
         a.ffcharge = 0.125 * (i % 5) - 0.25
         a.radius = 1.0 + 0.01 * i
         before.append((a, a.x, a.y, a.z, a.ffcharge, a.radius, a.residue))
-    bm.apply_name_scheme(_Scheme(eng))
+    scheme = _Scheme(eng)
+    bm.apply_name_scheme(scheme)
+    # every atom is looked up under the name of its OWN residue
+    eng.check(len(scheme.asked) == len(own), "one-lookup-per-atom")
+    wrong = [(o[2], o[1], a[0]) for a, o in zip(scheme.asked, own) if a[1] == o[1] and a[0] not in (o[0], o[2])]
+    eng.check(not wrong, "atom-looked-up-under-its-own-residue", note=f"apply_name_scheme asked the naming scheme about atoms under another residue's name (residue, atom, name used): {wrong[:4]}")
     after = bm.atoms
     eng.check(len(after) == len(before) and all(x is y[0] for x, y in zip(after, before)), "same-atoms-same-order", note="apply_name_scheme changed the atom list or its order")
     for a, x, y, z, q, r, res in before:
@@ -251,6 +268,10 @@ def obligations(tier):
     for k in range(len(wk)):
         obs.append(Obligation(f"drop-water-first={wk[k]}", c07.h_records, dict(nlines=3, kinds=wk, models="plain", drop=True, first=k), group="records", time_cap=1500, max_paths=100000))
     obs += c07._drop_name_obligations()  # --drop-water removes water records only (symbolic residue name)
+    # a disulfide-bonded cysteine at a chain end keeps the (neutral) terminal parameter set of its position (C13's pipeline pair, PARSE)
+    from . import c13
+
+    obs.append(Obligation("neutral-termini-terminal-disulfide", c13.h_pipeline_pair, dict(ff="parse"), group="neutral-termini-symx", time_cap=1500))
     res = ["ALA", "GLY", "PRO", "LYS"] if tier == "quick" else ["ALA", "ARG", "ASP", "CYS", "GLU", "GLY", "HIS", "LYS", "PRO", "SER", "TYR"]
     for s in STRUCTS:
         obs.append(Obligation(f"neutral-termini-{s}", table_neutral, dict(residues=res if s == "tripeptide" else res[:2], structs=[s]), kind="table", group="neutral-termini"))
